@@ -2,14 +2,14 @@
 CLAIMS = {
     'C05': {
         'design': '5.5',
-        'technique': 'guard-fact dataflow + who-may-write + path-sensitive error discipline over clang CFG facts',
+        'technique': 'guard-fact dataflow + who-may-write + path-sensitive error discipline over clang CFG facts (after normalisation: new helpers inlined, new single-definition locals propagated)',
         'decides': 'success bookkeeping (outputs_ready_, --wanted_edges_, want_.erase, dyndep load, '
                    'NodeFinished) and build/deps-log records are reachable only under a succeeded result; '
                    'EdgeFinished call sites pass a result consistent with their guard; exit-code plumbing '
                    'from the failed command to exit(); failure-budget guards (decrement only on failure and '
                    'only while non-zero, starts guarded, reaping not guarded); wait-status decoding guarded '
                    'by WIFEXITED; missing-source error guard and its precedence over Builder::Build; no '
-                   'failure edge of a fallible call reaches a success return in build.cc / ninja.cc. Builder::Build returns the recorded exit code only after a command failure was recorded; an output without a build-log entry is dirty (known finding: generator rules are exempt, so a failed generator command is not retried).',
+                   'failure edge of a fallible call reaches a success return in build.cc / ninja.cc. Builder::Build returns the recorded exit code only after a command failure was recorded; an output without a build-log entry is dirty (known finding: generator rules are exempt, so a failed generator command is not retried). Builder::Build returns ExitFailure from its stuck exit.',
         'not_decided': 'which commands may legitimately start after a failure under a given schedule.',
     },
     'C06': {
@@ -24,7 +24,7 @@ CLAIMS = {
                    'command always reaches a function that releases on all of its paths, Abort releases all '
                    'active edges; process-exit sites reachable while slots are held are enumerated against a '
                    'reasoned table; Jobserver::Slot cannot be copied or forged (compile-fail witnesses); the '
-                   'console pool is the depth-1 pool. A moved-from Jobserver::Slot is invalid on every path of both move operations (release-twice is a no-op).',
+                   'console pool is the depth-1 pool. A moved-from Jobserver::Slot is invalid on every path of both move operations (release-twice is a no-op). RealCommandRunner::GetActiveEdges reports every entry of subproc_to_edge_ (Abort/Cleanup/ClearJobTokens act on that list); an explicit -j (and -n) disables the jobserver client and only a jobserver client lifts the parallelism bound; targets planned during the build are followed by a scheduling pass for ready edges.',
         'not_decided': 'the numeric -j / load-average capacity formula (CanRunMore), "never idles" and '
                        '"always terminates" (liveness).',
     },
@@ -55,7 +55,7 @@ CLAIMS = {
                    'the loader entry; scan-time loads happen only behind the pending test and never while the '
                    'producer still has to run; at build time every output of a finished edge is examined, the '
                    'plan walk skips an edge only if it is ready or not in the plan; parsed paths are '
-                   'canonicalised before interning.',
+                   'canonicalised before interning. On every visit of an edge the scan stats its outputs before computing their dirtiness; validations found by a mid-build re-scan are planned unconditionally and followed by a scheduling pass.',
         'not_decided': 'equivalence with the manifest that has the information written in; schedule-dependent '
                        're-want logic in RefreshDyndepDependents.',
     },
@@ -79,7 +79,7 @@ CLAIMS = {
                    'rspfile, or a build-log key under the dead guard (never inputs_/validations_); the three scopes '
                    'agree on the phony exclusion and are compared on the generator exclusion; all-edges/all-outputs '
                    'loops are full-range, depfile and rspfile are covered, dyndep files are loaded first (skipped '
-                   'only if absent or already loaded); by-target recursion marks before descending. Cleaner::RemoveEdgeFiles skips the depfile / rspfile only when the edge has none.',
+                   'only if absent or already loaded); by-target recursion marks before descending. Cleaner::RemoveEdgeFiles skips the depfile / rspfile only when the edge has none. RemoveFile reports "not there" only from remove()\'s own ENOENT and never probes the path with a call that follows symlinks.',
         'not_decided': 'that a following build re-creates the removed files.',
     },
     'C01': {
@@ -96,7 +96,7 @@ CLAIMS = {
                    'recorded mtime is the pre-spawn lock-file stat except for restat/generator/unknown; the plan '
                    'recurses into every input, wants exactly dirty nodes, adds all validations; a rebuilt manifest '
                    'is re-read before building; discovered paths are canonicalised before interning; scan/plan '
-                   'errors never become success.',
+                   'errors never become success. RealDiskInterface::Stat follows symlinks (stat/stat64, never lstat): every compared timestamp is that of the file content.',
         'not_decided': 'equality of file contents with a from-scratch build over histories and schedules; anything '
                        'depending on real mtimes; correctness of the plan under dyndep surgery.',
     },
@@ -110,7 +110,7 @@ CLAIMS = {
                    'by the same key; the dirty relations are strict; deps are recorded with Stat() of the same '
                    'output; restat pruning uses == and falls back to the start time; AlreadyUpToDate == '
                    '!more_to_do() and an up-to-date plan returns success without reaching Build; the build log '
-                   'is reopened lazily in append mode after Close(). Plan::CleanNode prunes (un-want / recursion) only after RecomputeOutputsDirty re-examined that very edge.',
+                   'is reopened lazily in append mode after Close(). Plan::CleanNode prunes (un-want / recursion) only after RecomputeOutputsDirty re-examined that very edge. The validation nodes a mid-build re-scan reports are planned for every re-scanned dependent, dirty or not; the restat shortcut of the output check is stated over its three conditions, however they are stored.',
         'not_decided': 'that the times recorded at run time dominate the inputs\' times (clock / file system); '
                        'multi-session interplay.',
     },
@@ -124,7 +124,7 @@ CLAIMS = {
                    'dirty only with no inputs, no validations and a missing output, and adopts input mtimes only '
                    'while missing (max); CleanNode un-wants only under all-inputs-clean and outputs-clean, paired '
                    'with the counters, and the non-phony counter/status adjustments mirror EdgeWanted; edges whose '
-                   'outputs are ready are never inserted into the plan. Plan::CleanNode prunes (un-want / recursion) only after RecomputeOutputsDirty re-examined that very edge.',
+                   'outputs are ready are never inserted into the plan. Plan::CleanNode prunes (un-want / recursion) only after RecomputeOutputsDirty re-examined that very edge. The all-inputs-clean test of CleanNode asks Node::dirty() itself (or a trivial wrapper).',
         'not_decided': 'equality of the executed command set with a reference make-semantics model.',
     },
     'C10': {
@@ -138,7 +138,7 @@ CLAIMS = {
                    '(a vanished discovered dep means rebuild, not error); deps are recorded for every output and a '
                    'failed extraction records nothing; depfile/gcc/msvc paths are canonicalised before interning; '
                    'strong typestate: a first scan ends with discovered deps spliced in or deps_missing_ set '
-                   '(violated today: known finding).',
+                   '(violated today: known finding). With a deps type and outside a dry run no success return of FinishCommand avoids RecordDeps; CLParser consults the input-file-name filter only for lines the /showIncludes filter did not recognise.',
         'not_decided': 'metamorphic equality with the variant of a scenario in which the dependency is declared.',
     },
     'C08': {
@@ -152,7 +152,7 @@ CLAIMS = {
                    'LOAD_ERROR; Restat writes only mtime, from Stat, for entries selected by full equality; Recompact '
                    'writes no field, drops/erases only paths reported dead; IsPathDead is true only as Stat==0 of a '
                    'path without producer; rewrites go Close -> temp file -> fclose -> ReplaceContent (unlink then '
-                   'rename, failures propagated). The log header is written exactly when a size/position query on the opened stream says the file is empty.',
+                   'rename, failures propagated). The log header is written exactly when a size/position query on the opened stream says the file is empty. LineReader searches for the newline up to the end of the buffered data (p + n = buf_end_ in linear form); Restat refreshes an entry only if no outputs were named or its output equals a named one (flag or control-flow idiom).',
         'not_decided': 'equality of the loaded state with a model folded over the complete lines for all byte prefixes; '
                        'buffer arithmetic inside LineReader.',
     },
@@ -185,7 +185,7 @@ CLAIMS = {
                    '(compile-fail), build-level values are evaluated in the enclosing scope and paths in the edge '
                    'scope; input kinds are collected in order with their counters, stored after all AddIn calls and '
                    'kept in sync by later erases; manifest, default, command-line and clean paths are canonicalised '
-                   'before interning and no shell-escaped lookup feeds a node identity or file-system call. The std::string overload of CanonicalizePath always delegates to the char* overload (one definition of node identity).',
+                   'before interning and no shell-escaped lookup feeds a node identity or file-system call. The std::string overload of CanonicalizePath always delegates to the char* overload (one definition of node identity). Rule::GetBinding answers "no binding" only for a key that is not in the map; the parser of an included / subninja file is constructed with the parent\'s options.',
         'not_decided': 'that the evaluated graph equals the one defined by the manual for every manifest; the lexer\'s '
                        'token grammar (varname alphabet, $-escapes) beyond the sentinel proof of C13.',
     },
@@ -201,7 +201,7 @@ CLAIMS = {
                    'condition (known findings: include cycle, `-t targets depth 0`); nullable results (memchr, getenv, '
                    'fopen, Lookup*, GetDeps, GetBinding) are known non-null at every dereference; begin() of a container is '
                    'dereferenced only where it is known non-empty; std::get on the result variant is guarded by '
-                   'holds_alternative. Zero-expected rules are validated by planted controls on every run. A local fixed-size array handed to a call with an explicit length is accessed within its size (interval bounds with return models for read/fread; the would-be length returned by snprintf is not a bound). Loop progress: every loop whose condition compares a local position/pointer with a bound or tests the byte it points at advances that position on every trip (disjunctive abstract interpretation with find/memchr/strpbrk models, nv/loopprog.py; undecided loops are listed), and every input-driven loop (for(;;), while(ReadLine/PeekToken/getopt)) has no way round without a consuming call.',
+                   'holds_alternative. Zero-expected rules are validated by planted controls on every run. A local fixed-size array handed to a call with an explicit length is accessed within its size (interval bounds with return models for read/fread; the would-be length returned by snprintf is not a bound). Loop progress: every loop whose condition compares a local position/pointer with a bound or tests the byte it points at advances that position on every trip (disjunctive abstract interpretation with find/memchr/strpbrk models, nv/loopprog.py; undecided loops are listed), and every input-driven loop (for(;;), while(ReadLine/PeekToken/getopt)) has no way round without a consuming call. The rule-variable cycle flag is armed before the nested evaluation and never disarmed; a NUL-terminated scan never steps over a byte that may be the terminator.',
         'not_decided': 'memory safety in general (index arithmetic in ElideMiddle, CanonicalizePath, the in-place de-escaping writes of the depfile parser); termination of the re2c scanner loops beyond the NUL sentinel argument, of worklist / plan loops and of loops listed as undecided.',
     },
     'C16': {
@@ -242,7 +242,7 @@ CLAIMS = {
                    'regardless of the result, plan totals mirror command_edges_ under the same non-phony guard and are '
                    'cleared between builds; the console is locked/unlocked only for console-pool edges (and unconditionally '
                    'unlocked at BuildFinished), nothing is written while locked, held-back output keeps its explicit length '
-                   'and is flushed before the buffer is cleared. What is flushed on console unlock is cleared on every path before SetConsoleLocked returns; StripAnsiEscapeCodes walks the whole input in constant steps, copies every non-ESC byte and leaves its loop early only when ESC is the last byte.',
+                   'and is flushed before the buffer is cleared. What is flushed on console unlock is cleared on every path before SetConsoleLocked returns; StripAnsiEscapeCodes walks the whole input in constant steps, copies every non-ESC byte and leaves its loop early only when ESC is the last byte. Only the Subprocess itself writes its pipe descriptor, and it closes the pipe only when read() returned no data.',
         'not_decided': 'non-interleaving and counter consistency as trace properties over schedules; elision and percentage arithmetic.',
     },
     'C07': {
@@ -255,7 +255,7 @@ CLAIMS = {
                    'then the depfile, finally the lock file; children are signalled by process group (except console '
                    'children), deleted afterwards, and destroying an unreaped subprocess waits for it; signal handlers make '
                    'no calls and store only to volatile sig_atomic_t; log records are flushed before success / memory '
-                   'updates and rewrites go through ReplaceContent.',
+                   'updates and rewrites go through ReplaceContent. Cleanup covers every started, not yet reaped command (GetActiveEdges is a full-range loop over subproc_to_edge_).',
         'not_decided': 'a crash at an arbitrary instruction (SIGKILL), which needs the C08/C09 loaders and the dirty logic to '
                        'compose at run time; real-signal timing.',
     },
